@@ -101,11 +101,10 @@ def _reparse_raw_base(
             if not compare_asts(copy_root.a, root.a, skip1={copy.a}, skip2={self.a}):
                 raise _ReparseAll
 
-        elif set_ast:
-            if copy.col != self.col:  # statement moved to a different column, alone that is fine but not among its siblings
-                raise _ReparseAll
+        elif copy.col != self.col:  # statement moved to a different column, alone that is fine but not among its siblings or above its own body
+            raise _ReparseAll
 
-        elif copy.a.__class__ is not self.a.__class__:  # only block header reparsed and the old body will be reused, must still be same kind of block
+        elif not set_ast and copy.a.__class__ is not self.a.__class__:  # only block header reparsed and the old body will be reused, must still be same kind of block
             raise _ReparseAll
 
         if (scaffold
